@@ -165,7 +165,9 @@ def corpus_cases():
         b'end\x80', b'x=0XA', b'x=0B11', b'x=0x.8', b'x="\\x41"', b'x=[[\nk]]', b'a\rb', b'--c\r\nx', b'a\n\rb',
         b'x=[[a\r\nb]]', b'x="a\\\r\nb"', b'a>>>=b', b'1..2', b'x=1e+5', b'--[==[c]==]', b't[ [[k]] ]',
         b'0b1.1', b'?"hi"\n', b'a~=b', b'::l:: goto l', b'"\\256"', b'"', b'[[', b'--[[', b'\x0c',
-        b'\xef\xbb\xbf = {}\n', b'x=\xef\xbb\xbf+1\n\xef\xbb\xbfy=2', b'\xff\xfe=1 \xfe\xff=2\n', b'a\xef\xbb\xbf=1']}
+        b'\xef\xbb\xbf = {}\n', b'x=\xef\xbb\xbf+1\n\xef\xbb\xbfy=2', b'\xff\xfe=1 \xfe\xff=2\n', b'a\xef\xbb\xbf=1',
+        # `#` is the length operator wherever it stands; `include` is an ordinary name
+        b'total =\n  #include + #extra\nprint(total)\n', b'n=\n#include\n', b'#include x\n', b'x=1 #include y\n']}
 
 
 # ------------------------------------------------------------------ implementation
